@@ -375,6 +375,16 @@ func TestC17(t *testing.T) {
 					}
 				}
 			}
+			// control characters inside and after the text (Ctrl-Z as DOS tools leave it, NUL, form feed, escape): bytes like
+			// any others as far as delivery goes
+			switch format {
+			case "srt":
+				docs = append(docs, []byte("1\n00:00:01,000 --> 00:00:02,000\nfirst \x1a cue\n\n2\n00:00:03,000 --> 00:00:04,000\nsec\x00ond\x0c\n\n3\n00:00:05,000 --> 00:00:06,000\nthird \x1b[0m\n\x1a"))
+			case "vtt":
+				docs = append(docs, []byte("WEBVTT\n\n00:00:01.000 --> 00:00:02.000\nfirst \x1a cue\n\n00:00:03.000 --> 00:00:04.000\nsec\x00ond\x0c\n\n00:00:05.000 --> 00:00:06.000\nthird \x1b[0m\n\x1a\x1a"))
+			case "ssa":
+				docs = append(docs, []byte("[Script Info]\nTitle: t\x1az\n\n[Events]\nFormat: Marked, Start, End, Style, Name, MarginL, MarginR, MarginV, Effect, Text\nDialogue: Marked=0,0:00:01.00,0:00:02.00,,,0,0,0,,first \x1a cue\nDialogue: Marked=0,0:00:03.00,0:00:04.00,,,0,0,0,,sec\x00ond\x0c\nDialogue: Marked=0,0:00:05.00,0:00:06.00,,,0,0,0,,third\n\x1a"))
+			}
 			if format == "ttml" {
 				// CR LF line ends inside text that is kept verbatim (title, copyright) and inside paragraphs
 				docs = append(docs, []byte("<?xml version=\"1.0\" encoding=\"UTF-8\"?>\r\n<tt xmlns=\"http://www.w3.org/ns/ttml\" xmlns:ttm=\"http://www.w3.org/ns/ttml#metadata\">\r\n  <head>\r\n    <metadata>\r\n      <ttm:title>A title\r\nover two lines</ttm:title>\r\n      <ttm:copyright>(c)\r\n\r\nsomeone</ttm:copyright>\r\n    </metadata>\r\n  </head>\r\n  <body>\r\n    <div>\r\n      <p begin=\"00:00:01.000\" end=\"00:00:02.000\">first\r\n        <br/>second</p>\r\n    </div>\r\n  </body>\r\n</tt>\r\n"))
